@@ -23,6 +23,7 @@ MC = {
     "mini33": ("mc/MC_micro.tla", "mc/MC_mini33.cfg", 8, 3000),      # 3 turns
     "mini43q": ("mc/MC_micro.tla", "mc/MC_mini43q.cfg", 6, 900),     # 4x3 + trap, 2 turns
     "mini44": ("mc/MC_micro.tla", "mc/MC_mini44.cfg", 6, 1800),      # 4x4 + trap, 2 turns
+    "geometry": ("mc/MC_geometry.tla", "mc/MC_geometry.cfg", 2, 600),   # no square touches two traps; <= 1 capture per step around every trap
     "setup": ("mc/MC_setup.tla", "mc/MC_setup.cfg", 4, 600),          # real complement, all count vectors (VIEW)
     "setupfull": ("mc/MC_setup.tla", "mc/MC_setupfull.cfg", 4, 900),  # 3-file board, all orders, no VIEW
     "sym33": ("mc/MC_sym.tla", "mc/MC_sym33.cfg", 4, 600),          # spec commutes with the symmetries, 3x3
@@ -37,11 +38,13 @@ MC_PLAN = {
         "default": ["micro22", "mini33q"],
         "C08": ["hash33", "hashsetup"],
         "C09": ["setup", "setupfull"],
+        "C13": ["micro22", "mini33q", "geometry"], "C02": ["micro22", "mini33q", "geometry"],
     },
     "thorough": {
         "default": ["micro22", "mini33", "mini43q", "mini44"],
         "C08": ["hash33", "hashsetup", "mini33q"],
         "C09": ["setup", "setupfull", "hashsetup"],
+        "C13": ["micro22", "mini33", "mini43q", "mini44", "geometry"], "C02": ["micro22", "mini33", "mini43q", "mini44", "geometry"],
         "C05": ["micro22", "micro32", "mini33"], "C06": ["micro22", "micro32", "mini33"], "C07": ["micro22", "micro32", "mini33"],
     },
 }
@@ -260,6 +263,17 @@ def turns_stage(tier, seed, workdir, bindir):
     r["complete_turns_compared"] = sum(turns)
     r["roots"] = len(turns)
     out.append(r)
+    # the README's worked example: 2467 unique first moves from the basic setup, counted on the SPECIFICATION as
+    # (states found when Gold's first turn is expanded) - (its mid-turn states)
+    a = expect_mc_ok(tlc_mc("mc/MC_moves.tla", "mc/MC_moves.cfg", workers=4, timeout=900, name="moves_all"))
+    b = expect_mc_ok(tlc_mc("mc/MC_moves.tla", "mc/MC_moves_mid.cfg", workers=4, timeout=900, name="moves_mid"))
+    if a["distinct"] - b["distinct"] != 2467:
+        raise ToolError("the specification counts %d first moves from the basic setup, the README (and the engine's doc test) say 2467"
+                        % (a["distinct"] - b["distinct"]))
+    a["roots"] = 1
+    a["complete_turns_compared"] = a["distinct"] - b["distinct"]
+    a["name"] = "readme_first_moves_2467"
+    out.append(a)
     return out
 
 
